@@ -172,21 +172,38 @@ var (
 // named; it returns the name of the request during which the gateway died or stopped
 // answering ("" if it is still serving).
 func (w *c20Worker) followUp(ep *c20Endpoint) string {
-	if len(ep.P) == 0 || ep.P[0].K != "bucket" {
+	if len(ep.P) == 0 || (ep.P[0].K != "bucket" && ep.P[0].K != "admin") {
 		return ""
 	}
+	admin := ep.P[0].K == "admin"
 	bucket := w.fx.subst(ep.P[0].Ok, nil)
 	key := ""
 	if len(ep.P) > 1 {
 		key = w.fx.subst(ep.P[1].Ok, nil)
 	}
-	if bucket == c20NewBucket || bucket == "" {
+	if !admin && (bucket == c20NewBucket || bucket == "") {
 		return ""
 	}
 	w.fuSeq++
 	fuNew, fuNew2 := fmt.Sprintf("c20-fu-%d", w.fuSeq), fmt.Sprintf("c20-fu-%d-copy", w.fuSeq)
 	rep := strings.NewReplacer("$FUBUCKET", bucket, "$FUNEW2", fuNew2, "$FUNEW", fuNew)
 	for _, fu := range c20FollowUps {
+		if fu.Target == "unknown-key" || fu.Target == "user" {
+			// the account file is read for every account that is not cached
+			cl := w.fx.root.With(s3c.Creds{Access: fmt.Sprintf("C20NOSUCHKEY%08d", w.fuSeq), Secret: "c20-no-such-secret"})
+			if fu.Target == "user" {
+				cl = w.fx.root.With(s3c.Creds{Access: c20UserAccess, Secret: c20UserSecret})
+			}
+			atomic.AddInt64(&c20FUCount, 1)
+			r := cl.Do(s3c.Req{Method: "GET", Path: "/", Timeout: c20Timeout})
+			if r.Err != nil || r.BodyErr != nil || r.Latency >= 5*time.Second {
+				return fu.Name
+			}
+			continue
+		}
+		if admin {
+			continue
+		}
 		path := "/" + bucket
 		switch fu.Target {
 		case "new":
